@@ -48,7 +48,33 @@ pub struct PublicKey { pub bytes: [u8; 32] }
 pub struct Kind { _p: u16 }
 #[verifier::external_body]
 pub struct Tags { _p: u8 }
-#[verifier::external_body]
-pub struct UnsignedEvent { _p: u8 }
+// nostr::UnsignedEvent: public fields as in nostr 0.44
+pub struct UnsignedEvent {
+    pub id: Option<EventId>,
+    pub pubkey: PublicKey,
+    pub created_at: Timestamp,
+    pub kind: Kind,
+    pub tags: Tags,
+    pub content: String,
+}
+// NIP-01 event id: sha256 of the canonical serialisation of (pubkey, created_at, kind, tags, content) — uninterpreted
+pub uninterp spec fn nip01_id(pubkey: PublicKey, created_at: Timestamp, kind: Kind, tags: Tags, content: String) -> EventId;
+pub open spec fn rumor_hash(u: UnsignedEvent) -> EventId { nip01_id(u.pubkey, u.created_at, u.kind, u.tags, u.content) }
+impl UnsignedEvent {
+    // nostr 0.44 unsigned.rs: returns the pre-set id if there is one, else computes and stores it
+    #[verifier::external_body]
+    pub fn id(&mut self) -> (r: EventId)
+        ensures r == (match old(self).id { Some(i) => i, None => rumor_hash(*old(self)) }),
+                *final(self) == (UnsignedEvent { id: Some(r), ..*old(self) }),
+    { unimplemented!() }
+    #[verifier::external_body]
+    pub fn ensure_id(&mut self)
+        ensures *final(self) == (UnsignedEvent { id: Some(match old(self).id { Some(i) => i, None => rumor_hash(*old(self)) }), ..*old(self) }),
+    { unimplemented!() }
+}
+impl Clone for UnsignedEvent { #[verifier::external_body] fn clone(&self) -> (r: Self) ensures r == *self { unimplemented!() } }
+impl Clone for Tags { #[verifier::external_body] fn clone(&self) -> (r: Self) ensures r == *self { unimplemented!() } }
+impl Clone for Kind { #[verifier::external_body] fn clone(&self) -> (r: Self) ensures r == *self { unimplemented!() } }
+impl Copy for Kind {}
 #[verifier::external_body]
 pub struct RelayUrl { _p: u8 }
